@@ -120,7 +120,7 @@ def num_lit(x) -> str:
 
 
 ATOMIC = {'lit', 'var', 'num', 'str', 'name', 'txn', 'field', 'fieldb', 'match', 'anyof', 'fuzzy', 'exists', 'call', 'len',
-          'sumgen', 'anygen', 'allgen', 'nextgen', 'minl', 'maxl', 'min2', 'max2', 'attr', 'listcomp', 'meth', 'sub', 'raw'}
+          'sumgen', 'anygen', 'allgen', 'nextgen', 'minl', 'maxl', 'min2', 'max2', 'attr', 'listcomp', 'meth', 'sub', 'raw', 'gen'}
 
 
 def render(e) -> str:
@@ -184,6 +184,8 @@ def render(e) -> str:
         return f'next(({_gen(e)}){d})'
     if k == 'listcomp':
         return f'[{_gen(e)}]'
+    if k == 'gen':
+        return f'({_gen(e)})'
     if k == 'attr':
         return f'{render(e[1]) if isinstance(e[1], list) else e[1]}.{e[2]}'
     if k == 'sub':
@@ -456,6 +458,8 @@ def ref_eval(e, env: Env):
             raise RefErr(str(ex))
     if k == 'listcomp':
         return list(_iter(e, env))
+    if k == 'gen':
+        raise Unspecified('value of a bare generator expression')
     if k == 'sumgen':
         try:
             return sum(_iter(e, env))
@@ -799,3 +803,73 @@ def transform(e, fn):
 
 def flip_str_literals(e, mask):
     return transform(e, lambda n: ['str', flip_case(n[1], mask)] if n[0] == 'str' else n)
+
+
+# ------------------------------------------------------------------------------------------------
+# untyped ("wild") generator: syntactically valid, freely ill-typed / partial expressions (C08, C03)
+# ------------------------------------------------------------------------------------------------
+BAD_REGEX = ['(', '[', '*', '(?P<x', 'a{2,1}', '\\', '(?<=a+)b', ')']
+HUGE_INT = int('9' * 400)
+
+FUNC_NAMES = ['contains', 'regex', 'normalized', 'anyof', 'startswith', 'fuzzy', 'abs', 'round', 'extract', 'split', 'substring', 'trim',
+              'regex_replace', 'uppercase', 'lowercase', 'strip_prefix', 'strip_suffix', 'exists', 'len', 'sum', 'any', 'all', 'next',
+              'min', 'max', 'nosuchfn', 'sorted', 'str', 'int']
+
+wild_atom = st.one_of(
+    st.sampled_from([['name', 'amount'], ['name', 'description'], ['name', 'date'], ['name', 'month'], ['name', 'source'], ['txn', 'amount'],
+                     ['txn', 'date'], ['txn', 'nosuch'], ['field', 'memo'], ['field', 'nosuch'], ['fieldb', 'amount'], ['name', 'orders'],
+                     ['name', 'receipts'], ['name', 'undefined_name'], ['var', 'is_large'], ['var', 'label'], ['var', 'm'], ['raw', 'None'],
+                     ['raw', 'txn'], ['raw', 'field'], ['raw', 'contains'], ['raw', '...'], ['raw', "b'x'"], ['raw', '1j'],
+                     ['num', 0], ['num', 1], ['num', -1], ['num', 2.5], ['num', HUGE_INT], ['num', 1e308],
+                     ['str', ''], ['str', 'UBER'], ['str', '2024-01-01'], ['str', 'not-a-date'], ['str', '5'], ['lit', True], ['lit', False]]),
+    st.sampled_from(BAD_REGEX).map(lambda s: ['str', s]),
+    pattern_text.map(lambda s: ['str', s]),
+)
+
+
+@st.composite
+def wild_expr(draw, depth=2):
+    if depth <= 0 or draw(st.integers(0, 9)) < 3:
+        return draw(wild_atom)
+    w = lambda: wild_expr(depth - 1)
+    c = draw(st.integers(0, 17))
+    if c <= 1:
+        return ['cmp', draw(w()), [[draw(st.sampled_from(['<', '<=', '>', '>=', '==', '!=', 'in', 'not in'])), draw(w())]
+                                   for _ in range(draw(st.integers(1, 2)))]]
+    if c == 2:
+        return [draw(st.sampled_from(['and', 'or'])), draw(st.lists(w(), min_size=2, max_size=3))]
+    if c == 3:
+        return ['not', draw(w())]
+    if c <= 5:
+        return ['bin', draw(st.sampled_from(['+', '-', '*', '/', '%'])), draw(w()), draw(w())]
+    if c == 6:
+        return ['neg', draw(w())]
+    if c <= 9:
+        return ['call', draw(st.sampled_from(FUNC_NAMES)), draw(st.lists(w(), max_size=4))]
+    if c == 10:
+        return ['meth', draw(w()), draw(st.sampled_from(['lower', 'upper', 'strip', 'startswith', 'endswith', 'replace', 'format', 'split', 'join', 'keys', '__class__'])),
+                draw(st.lists(w(), max_size=2))]
+    if c == 11:
+        return ['sub', draw(w()), draw(st.one_of(w(), st.sampled_from([['num', 0], ['num', 5], ['num', -1], ['str', 'item'], ['str', 'nosuch']])))]
+    if c == 12:
+        return ['attr', draw(st.one_of(w(), st.sampled_from(['r', 'txn', 'field', 'orders']))), draw(st.sampled_from(['item', 'amount', 'nosuch', 'upper', '__class__']))]
+    if c == 13:
+        v = draw(st.sampled_from(['r', 'x']))
+        return ['listcomp', draw(st.one_of(w(), st.just(['attr', v, 'item']), st.just(['name', v]))), v,
+                draw(st.one_of(w(), st.just(['name', 'orders']))), draw(st.one_of(st.none(), w()))]
+    if c == 14:
+        v = draw(st.sampled_from(['r', 'x']))
+        kind = draw(st.sampled_from(['sumgen', 'anygen', 'allgen', 'nextgen']))
+        node = [kind, draw(st.one_of(w(), st.just(['attr', v, 'amount']))), v, draw(st.one_of(w(), st.just(['name', 'orders']), st.just(['name', 'receipts']))),
+                draw(st.one_of(st.none(), w(), st.just(['lit', False])))]
+        if kind == 'nextgen':
+            node.append(draw(st.one_of(st.none(), w())))
+        return node
+    if c == 15:
+        return ['if', draw(w()), draw(w()), draw(w())]
+    if c == 16:
+        return [draw(st.sampled_from(['len', 'minl', 'maxl'])), draw(w())]
+    if draw(st.booleans()):
+        v = draw(st.sampled_from(['r', 'x']))
+        return ['gen', draw(st.one_of(w(), st.just(['attr', v, 'item']))), v, draw(st.one_of(w(), st.just(['name', 'orders']))), draw(st.one_of(st.none(), w()))]
+    return ['walrus', draw(st.sampled_from(['tmp', 'amount', 'r'])), draw(w())]
